@@ -271,13 +271,17 @@ impl Engine for ValSweep {
         let mut failure = None;
         let mut payload = None;
         let mut subs = vec![];
+        let mut since_touch = 0u32;
         for (i, (dim, a, b)) in self.points().into_iter().enumerate() {
             if i as u64 % self.of != self.shard {
                 continue;
             }
-            if i % 4096 == 0 {
+            // (counted per evaluated point: a test on the global index would never fire for some shards)
+            if since_touch >= 1024 {
                 crate::campaign::touch();
+                since_touch = 0;
             }
+            since_touch += 1;
             let (f, n) = self.one(dim, a, b, &mut known);
             evals += n;
             if let Some(f) = f {
